@@ -423,3 +423,67 @@ func c06Transport(x *X) {
 func init() {
 	register(&Scenario{Prop: "C06", Name: "c06/transport-sentinel-texts", Quick: []Bound{{0, 0}, {1, 0}}, Thorough: []Bound{{2, 0}}, Body: c06Transport, MaxSteps: 200000, BudgetQ: 15})
 }
+
+// error texts as data: every text of a list chosen for what encoders, formatters and escapers get
+// wrong (percent signs, quotes and backslashes, control characters incl. NUL / ESC / DEL, U+2028,
+// runes above U+FFFF, text that looks like JSON or like a format string, 20 KB) comes back
+// byte for byte, as a handler's error and inside the name of an unknown method, under every header
+// encoder; the call after it is unaffected.
+var c06DataTexts = []string{
+	"100% full", "%s %d %v %%", "5%", "%!(NOVERB)", "a\"b\\c", "\\n is not a newline", "tab\there\nnewline\r\n", "nul\x00inside",
+	"\x1b[31mpermission denied\x1b[0m", "bell\a vt\v ff\f bs\b", "del\x7fete", "line sep ", "tag \U000E0001 plane 14", "emoji \U0001F600 \U0010FFFF",
+	"{\"e\":\"x\"}", "<script>&amp;</script>", " leading and trailing ", "ünïcödé 世界", strings.Repeat("twenty kilobytes ", 1200),
+}
+
+func c06DataTextsBody(x *X) { c06DataTextsBodyP("C06")(x) }
+
+func c06DataTextsBodyP(prop string) func(x *X) {
+	return func(x *X) {
+		enc := encNames[x.Choose(len(encNames))]
+		kind := x.Choose(2) // handler error / unknown method whose name contains the text
+		ti := x.Choose(len(c06DataTexts))
+		text := c06DataTexts[ti]
+		f := newFixture(srvOpts{bufSize: 64, enc: enc}, cliOpts{bufSize: 64})
+		c := newUcall(0x31, fErr, 16, []int{formCall, formGo, formCallCtx}[ti%3])
+		want := text
+		if kind == 0 {
+			f.w.errText[0x31] = text
+		} else {
+			c.method = "Nope." + text
+			want = "can't find service Nope." + text
+		}
+		c.spawn(f.conn)
+		vs.Quiesce()
+		switch {
+		case !c.ret:
+			x.Fail(prop+"/failing-call-never-completes/data", "a call whose server-side error text is %q (header encoder %q) never completed", clip(text), enc)
+		case c.err == nil:
+			x.Fail(prop+"/error-lost/data", "the call returned nil, the server-side error text is %q", clip(text))
+		case c.err.Error() != want:
+			x.Fail(prop+"/error-text/data", "server-side error text %q (header encoder %q, %d bytes) arrived as %q (%d bytes)", clip(want), enc, len(want), clip(c.err.Error()), len(c.err.Error()))
+		}
+		if n := f.conn.NumCalls(); n != 0 {
+			x.Fail(prop+"/residue/data", "NumCalls is %d after the failing call", n)
+		}
+		after := newUcall(0x32, 0, 20, formCall)
+		after.spawn(f.conn)
+		vs.Quiesce()
+		if !after.ret || after.err != nil || !eqBytes(after.reply, after.want()) {
+			x.Fail(prop+"/neighbour-failed/data", "the call after a failing call with the text %q: returned=%v err=%v", clip(text), after.ret, after.err)
+		}
+		x.Outcome("enc=%q kind=%d text=%d", enc, kind, ti)
+		f.conn.Close()
+		vs.Quiesce()
+	}
+}
+
+func clip(s string) string {
+	if len(s) > 80 {
+		return s[:80] + "..."
+	}
+	return s
+}
+
+func init() {
+	register(&Scenario{Prop: "C06", Name: "c06/error-texts-as-data", Quick: []Bound{{0, 0}}, Thorough: []Bound{{1, 0}}, Body: c06DataTextsBody, MaxSteps: 200000, BudgetQ: 15, BudgetT: 100, MinHB: 1})
+}
